@@ -155,6 +155,7 @@ type c16Opts struct {
 	loseOne    bool // one old server-side session is closed at any moment during the restart
 	noPath     bool // the new server has removed the socket file but is not listening yet: dialling fails
 	lateServer bool // the new server starts listening only after the hand-over has timed out; then the old server lets go
+	foreignAck bool // while the restart is in progress a client session sends an ACK carrying another epoch (a late ack of an earlier round)
 }
 
 func c16Body(o c16Opts) func() {
@@ -248,6 +249,16 @@ func c16Body(o c16Opts) func() {
 				}
 			}))
 		}
+		if o.foreignAck {
+			ths = append(ths, vrt.GoProc("foreign-ack", 1, func() {
+				vrt.Point("wait-restart", func() bool { return hrCalled || hrErr != nil })
+				vrt.AnyMoment()
+				// an acknowledgement of epoch 999 on every client session: nobody asked for that epoch
+				for _, pool := range w.sm.pools {
+					pool.Session().hotRestart(999, typeHotRestartAck)
+				}
+			}))
+		}
 		if o.loseOne {
 			ths = append(ths, vrt.GoLazy("lose-one", 2, func() {
 				w.oldL.sessions.sessionMu.Lock()
@@ -273,6 +284,9 @@ func c16Body(o c16Opts) func() {
 		st, ep, _ := w.smState()
 		if st == hotRestartState {
 			vrt.Failf("manager-stuck", "3 virtual seconds after the listener left the hot-restart state the session manager is still in it")
+		}
+		if o.foreignAck && o.noPath && hrDoneAt-hrStart < int64(hotRestartCheckTimeout) {
+			vrt.Failf("foreign-ack-counted", "no client could move (nobody listens), the only acknowledgements carried a foreign epoch: the listener left the hot-restart state after %d ms, before its %d ms timeout", (hrDoneAt-hrStart)/1e6, int64(hotRestartCheckTimeout)/1e6)
 		}
 		if hrDoneAt-hrStart > int64(hotRestartCheckTimeout)+int64(2*hotRestartCheckInterval) {
 			vrt.Failf("listener-late", "the listener left the hot-restart state after %d ms (timeout %d ms + one tick)", (hrDoneAt-hrStart)/1e6, int64(hotRestartCheckTimeout)/1e6)
@@ -339,6 +353,7 @@ func TestVerif_C16(t *testing.T) {
 		mk(c16Opts{name: "new-server-not-up", n: 1, newServer: false, traffic: true}, 1, 2),
 		mk(c16Opts{name: "dial-fails-no-listener", n: 1, newServer: false, noPath: true, traffic: true}, 1, 2),
 		mk(c16Opts{name: "foreign-epoch", n: 1, newServer: true, foreign: true}, 1, 2),
+		mk(c16Opts{name: "foreign-ack-while-nobody-can-move", n: 2, newServer: false, noPath: true, foreignAck: true}, 1, 2),
 		mk(c16Opts{name: "one-session-lost-midway", n: 2, newServer: true, loseOne: true}, 1, 2),
 		mk(c16Opts{name: "new-server-late-old-lets-go", n: 2, newServer: false, noPath: true, lateServer: true}, 1, 2),
 		mk(c16Opts{name: "new-server-late-traffic", n: 1, newServer: false, lateServer: true, traffic: true}, 1, 2),
